@@ -136,6 +136,7 @@ func runEpisode(sc *Scenario) *Result {
 	if sc.Env.GOMAXPROCS > 0 {
 		runtime.GOMAXPROCS(sc.Env.GOMAXPROCS)
 	}
+	bezierProfile() // fixed construction order: first thing in the process
 	signal.Ignore(syscall.SIGXFSZ)
 	dir, err := os.MkdirTemp(workDir(), "ep-")
 	if err != nil {
